@@ -13,6 +13,7 @@ and consistent (`repaired_eq_current`).
 -/
 import SharkVerif.Model.Import
 import SharkVerif.Model.ImportLex
+import SharkVerif.Model.ImportCsv
 open SharkVerif.Import
 
 def hexVal (c : Char) : Nat :=
@@ -52,7 +53,10 @@ def showShape : Option Nat → String
 def showOutcome (f32 : Bool) : Outcome Val → String
   | .ok d =>
     let cast := if f32 then Val.toFloat32 else id
-    s!"ok shape={showShape d.shape} lshape={showShape d.lshape} batches=[{sepBy "," (d.batches.map toString)}] labels={showLabels (mapLabels cast d.labels)} rows=[{sepBy "," (d.rows.map (showRow ∘ mapRow cast))}]"
+    let lsh := match d.labels with
+      | .none => "-"
+      | _ => showShape d.lshape
+    s!"ok shape={showShape d.shape} lshape={lsh} batches=[{sepBy "," (d.batches.map toString)}] labels={showLabels (mapLabels cast d.labels)} rows=[{sepBy "," (d.rows.map (showRow ∘ mapRow cast))}]"
   | .error => "shark-exception"
   | .allocFail => "std-exception bad_alloc"
   | .oobWrite i n => s!"memory-error write index {i} size {n}"
@@ -77,6 +81,27 @@ def step (line : String) : String :=
         let recs := recs.map fun r => ({ label := r.1, feats := r.2 } : Svm.Rec Val)
         showOutcome f32 (Svm.importRepaired Val.zero Val.toInt32 cfg recs)
     | _, _ => "bad-op"
+  | ["csv", kind, ty, lp, nout, sep, comment, maxB, mode, hex] =>
+    if mode == "S" then "safety-only" else
+    match nout.toNat?, sep.toNat?, comment.toNat?, maxB.toNat? with
+    | some nout, some sep, some comment, some maxB =>
+      let bytes := if hex == "-" then [] else unhex hex.toList
+      let f32 := ty == "f32"
+      let sep := Char.ofNat sep
+      let comment := Char.ofNat comment
+      if kind == "u" then
+        match Csv.readRows bytes sep comment with
+        | none => "shark-exception"
+        | some rows => showOutcome f32 (Csv.importRows rows maxB)
+      else if kind == "r" then
+        match Csv.readRows bytes sep comment with
+        | none => "shark-exception"
+        | some rows => showOutcome f32 (Csv.importRegr rows (lp == "F") nout maxB)
+      else
+        match (if lp == "F" then Csv.readPointsFirst bytes sep comment else Csv.readPointsLast bytes sep comment) with
+        | none => "shark-exception"
+        | some pts => showOutcome f32 (Csv.importClass pts maxB)
+    | _, _, _, _ => "bad-op"
   | [] => ""
   | _ => "bad-op"
 
